@@ -132,8 +132,13 @@ func randomRoot(r *rand.Rand, profile string, i int) string {
 		return "/" + pick(r, litPool[:3]) + fmt.Sprintf("/{w%d}", i)
 	case x < 80:
 		return fmt.Sprintf("/{w%d}", i)
-	case x < 92:
+	case x < 88:
 		return fmt.Sprintf("/{w%d:%s}", i, pick(r, rePool))
+	case x < 92:
+		if profile == "slash" {
+			return fmt.Sprintf("/{w%d}", i)
+		}
+		return fmt.Sprintf("/{w%d}", i) + pick(r, sufPool) // {v}suffix in the root path (CurlyRouter only)
 	default:
 		return fmt.Sprintf("/{w%d}/", i) + pick(r, litPool[:3])
 	}
@@ -306,6 +311,9 @@ func valueFor(r *rand.Rand, tok string) []string {
 		switch re {
 		case "*":
 			n := 1 + r.Intn(3)
+			if r.Intn(12) == 0 {
+				n = 26 + r.Intn(10) // deep paths (limits that count separators)
+			}
 			out := []string{}
 			for i := 0; i < n; i++ {
 				out = append(out, pick(r, valuePool[:12]))
